@@ -9,6 +9,7 @@ func init() {
 	mp, cb, bs, be, as := "format/msgpack/msgpack.go", "format/cbor/cbor.go", "format/bson/bson.go", "format/bencode/bencode.go", "format/asn1/asn1_ber.go"
 
 	// msgpack
+	c("mp-array-early-end", "C16.msgpack.row", mp, "\t\t\t\tfor i := uint64(0); i < length; i++ {\n\t\t\t\t\td.FieldStruct(\"element\", decodeMsgPackValue)", "\t\t\t\tfor i := uint64(0); i < length && !d.End(); i++ {\n\t\t\t\t\td.FieldStruct(\"element\", decodeMsgPackValue)", "")
 	c("mp-hole", "C16.msgpack.table", mp, `{r: [2]byte{0x80, 0x8f}`, `{r: [2]byte{0x80, 0x8e}`, "byte:0x8f")
 	c("mp-lookup-strict", "C16.msgpack.table", mp, `u <= fe.r[1]`, `u < fe.r[1]`, "dispatch:lookup")
 	c("mp-uint16-signed", "C16.msgpack.row", mp, `d.FieldU16("value") }`, `d.FieldS16("value") }`, "row:uint16")
@@ -29,6 +30,7 @@ func init() {
 	c("bson-endian", "C16.bson.frame", bs, `d.Endian = decode.LittleEndian`, `d.Endian = decode.BigEndian`, "endian")
 	c("bson-frame", "C16.bson.frame", bs, `(size-4)*8`, `(size)*8`, "document:frame")
 	c("bson-string-nul-cut", "C16.bson.row", bs, "length := d.FieldU32(\"length\")\n\t\t\t\t\t\td.FieldUTF8(\"value\", int(length), strTrimTerminator)", "length := d.FieldU32(\"length\")\n\t\t\t\t\t\td.FieldUTF8NullFixedLen(\"value\", int(length))", "type:0x02")
+	c("bson-string-trim-run", "C16.bson.row", bs, "s.Actual = strings.TrimSuffix(s.Actual, \"\\x00\")", "s.Actual = strings.TrimRight(s.Actual, \"\\x00\")", "type:0x02")
 	c("bson-js-no-mapper", "C16.bson.row", bs, "length := d.FieldS32(\"length\")\n\t\t\t\t\t\td.FieldUTF8(\"value\", int(length), strTrimTerminator)", "length := d.FieldS32(\"length\")\n\t\t\t\t\t\td.FieldUTF8(\"value\", int(length))", "type:0x0d")
 	c("bson-int32", "C16.bson.row", bs, "case elementTypeInt32:\n\t\t\t\t\t\td.FieldS32(\"value\")", "case elementTypeInt32:\n\t\t\t\t\t\td.FieldU32(\"value\")", "type:0x10")
 
